@@ -154,7 +154,8 @@ def add_prefix_trap(rng, tree):
             node["c"][base + suf] = f(b"sib" + suf.encode())
         else:
             node["c"][base + suf] = d({"in": f(b"in" + suf.encode())})
-    return rng.choice([path + "/" + base, base, "**/" + base])
+    # also patterns that END in a single '*' and match the directory: its contents are excluded with it
+    return rng.choice([path + "/" + base, base, "**/" + base, path + "/" + base[:-1] + "*", base + "*", base[:1] + "*"])
 
 
 def end_to_end(ctx, n):
